@@ -175,7 +175,7 @@ def parse_tla_value(s):
 
 
 def tlc(module, cfg=None, workers=1, env=None, simulate=None, depth=None, seed=None,
-        coverage=False, timeout=1800, tag=None, dfs=False, want_printed=True, heap=None):
+        coverage=False, timeout=1800, tag=None, dfs=False, want_printed=True, heap=None, stack=None):
     """Run TLC on spec/<module>.tla with spec/<cfg>.  Returns a TLCResult.
     Raises MachineryError on anything that is not 'finished' or 'invariant violated'."""
     cfg = cfg or (module + '.cfg')
@@ -183,6 +183,8 @@ def tlc(module, cfg=None, workers=1, env=None, simulate=None, depth=None, seed=N
     opts = ['-XX:+UseParallelGC']
     if heap:
         opts.append('-Xmx' + heap)
+    if stack:
+        opts.append('-Xss' + stack)
     if dfs:
         opts.append('-Dtlc2.tool.queue.IStateQueue=StateDeque')
     cmd = ['java'] + opts + ['-cp', TLA_JARS, 'tlc2.TLC', '-workers', str(workers),
@@ -254,9 +256,9 @@ def _collect_printed(out):
     i = 0
     while i < len(lines):
         ln = lines[i]
-        if ln.startswith('<<"'):
+        if ln.startswith('<<"') or ln.startswith('<< "'):
             buf = ln
-            depth = buf.count('<<') - buf.count('>>')
+            depth = _depth_outside_strings(buf)
             while depth > 0 and i + 1 < len(lines):
                 i += 1
                 buf += '\n' + lines[i]
@@ -324,7 +326,7 @@ def write_ndjson(path, events):
             f.write('\n')
 
 
-def validate_traces(module, cfg, traces, jobs=None, chunk=4000, timeout=3600, tag=None, env=None):
+def validate_traces(module, cfg, traces, jobs=None, chunk=4000, timeout=3600, tag=None, env=None, stack=None):
     """traces: list of (tid, [event dict, ...]).  Every event gets 'tid'; an {'ev': 'End'} is appended.
     The trace spec prints <<"VERDICT", tid, verdict-string>> for each trace and the run must end
     with all lines consumed (POSTCONDITION in the cfg).  Returns ({tid: verdict}, states, transitions)."""
@@ -352,7 +354,7 @@ def validate_traces(module, cfg, traces, jobs=None, chunk=4000, timeout=3600, ta
         e = {'TRACE_FILE': path}
         if env:
             e.update(env)
-        return tlc(module, cfg, workers=1, env=e, timeout=timeout, tag=(tag or module) + '_tv')
+        return tlc(module, cfg, workers=1, env=e, timeout=timeout, tag=(tag or module) + '_tv', stack=stack)
 
     try:
         with concurrent.futures.ThreadPoolExecutor(max_workers=jobs) as ex:
